@@ -154,3 +154,46 @@ opt_family!(u8, 4, true, u8_ok; de_harness c08_opt_u8_wo_text_n2 = 14, 2);
 opt_family!(bool, 1, true, bool_ok; de_harness c08_opt_bool_wo_bool = 1, 3; de_harness c08_opt_bool_wo_nat8 = 4, 3;
     de_harness c08_opt_bool_wo_text = 14, 4);
 opt_family!(bool, 1, false, bool_ok; de_harness c08_opt_bool_w_bool = 1, 2; de_harness c08_opt_bool_w_nat8 = 4, 2);
+
+// wire `opt blob` (vec nat8) skipped at expected `opt nat8`: the skipped value goes through
+// deserialize_any -> deserialize_blob; hostile (huge / padded) length prefixes included.
+include!("/verif/kani/ext/src/oracle.rs");
+de_harness! {
+    #[kani::unwind(14)]
+    fn c08_opt_u8_wo_blob_eq12() {
+        const N: usize = 12;
+        let buf: [u8; N] = kani::any();
+        let cfg = cfg_any();
+        let unmetered = cfg.decoding_quota.is_none() && cfg.skipping_quota.is_none();
+        let et = ty(TypeInner::Opt(ty(TypeInner::Nat8)));
+        let wt = ty(TypeInner::Opt(ty(TypeInner::Vec(ty(TypeInner::Nat8)))));
+        let mut de = mk_de(&buf[..], wt, et, cfg);
+        let r = <Option<u8>>::deserialize(&mut de);
+        let pos = de.input.position() as usize;
+        std::assert!(pos <= N, "cursor beyond the input");
+        // reference
+        let mut tail = [0u8; N];
+        let mut i = 1;
+        while i < N { tail[i - 1] = buf[i]; i += 1; }
+        let exp: Option<usize> = match buf[0] {
+            0 => Some(1),
+            1 => match ref_leb_u128(&tail, N - 1) {
+                Leb::Val { v, end } => if v <= (N - 1 - end) as u128 { Some(1 + end + v as usize) } else { None },
+                _ => None,
+            },
+            _ => None,
+        };
+        match &r {
+            Ok(None) => match exp {
+                Some(c) => std::assert!(pos == c, "skipped blob: wrong number of bytes consumed"),
+                None => std::assert!(false, "malformed blob below opt accepted as null"),
+            },
+            Ok(Some(_)) => std::assert!(false, "a blob was read as nat8"),
+            Err(_) => if unmetered { std::assert!(exp.is_none(), "well-formed message rejected without a quota") },
+        }
+        kani::cover!(matches!(r, Ok(None)) && pos > 4, "blob of >= 2 bytes skipped");
+        kani::cover!(r.is_err() && buf[0] == 1 && buf[1] == 0xff && buf[9] == 0xff, "huge length prefix rejected");
+        std::mem::forget(r);
+        std::mem::forget(de);
+    }
+}
